@@ -10,6 +10,10 @@ angular pixel size d_x = lambda / (n_x * s_x), d_y likewise, and "half a pixel a
 pixels with alpha <= cut - half - eps MUST be 1, pixels with alpha >= cut + half + eps MUST be 0 (half = 0 for a hard edge),
 eps = 1e-5 (float32) / 1e-12 (float64) of the angular range; pixels inside the eps-band only have to lie in [0, 1].
 The inclusive boundary of the hard aperture (alpha == cutoff -> 1) is tested on `hard_aperture` with bit-identical floats.
+
+Every distribution-valued parameter is also exercised with *weighted* distributions (Gaussian quadrature weights, user
+weights): the member values are recomputed here; the bounds hold per member, i.e. weights must not scale an aperture or an
+envelope (an envelope member is exactly 1 at zero angle whatever its weight).
 """
 import math
 
@@ -20,7 +24,9 @@ from vf.props import c21 as A
 PROPERTY = "C23"
 TECHNIQUE = "runtime monitoring; bound and sandwich (eps-margin) oracles on real kernels against a float64 reference geometry"
 RULE = ("energies 20 keV-1 MeV; grids 1-48 points per axis (odd/even/size-1), anisotropic sampling 0.03-0.4 Angstrom; cutoff classes: "
-        "inside the grid, sub-pixel, beyond the grid corner, exactly on a pixel, 0, inf, and uniform distributions of 1-4 cutoffs; "
+        "inside the grid, sub-pixel, beyond the grid corner, exactly on a pixel, 0, inf, and distributions of 1-4 cutoffs; every "
+        "distribution-valued parameter (cutoff, focal spread, angular spread, one aberration coefficient) is uniform, Gaussian-"
+        "weighted with 'intensity' or 'amplitude' normalisation (ensemble_mean on/off) or user-weighted with weights in (0, 1]; "
         "soft and hard edges; focal spread 0-200 Angstrom (also negative, also distributions), angular spread 0-5 mrad (also exactly 0 "
         "and distributions); aberration sets of 0-25 polar coefficients scaled to 0.01-60 rad per term, one of them possibly a "
         "distribution; flip_phase on/off; float64 and float32; non-trivial = aperture edge inside the grid with pixels strictly "
@@ -29,19 +35,19 @@ CLAUSES = ["aperture-in-unit-interval", "hard-binary", "hard-one-up-to-cutoff", 
            "soft-one-below-half-pixel", "soft-zero-above-half-pixel", "ensemble-evaluates", "temporal-in-unit-interval",
            "temporal-one-at-zero", "spatial-in-unit-interval", "spatial-one-at-zero", "ctf-le-aperture", "ctf-zero-where-closed",
            "pipeline-le-aperture", "infinite-cutoff-is-open"]
-QUICK = dict(n=260, time=45)
+QUICK = dict(n=170, time=40)
 THOROUGH = dict(n=12000, time=360, shards=16)
 ASSUMPTIONS = ["Wiener-filtered CTFs (wiener_snr != 0) are outside the quantifier of the property and are not generated",
-               "distributions are uniform (unit weights); weighting of ensembles belongs to C03/C36"]
+               "user-defined weights are drawn from (0, 1] (the weights of coefficient distributions legitimately scale a CTF)"]
 
 
 # --------------------------------------------------------------------------- generator
-def _dist_or_scalar(rng, draw, p_dist):
+def _dist_or_scalar(rng, draw, p_dist, nonneg=False):
+    """Scalar, or a 1-4 member distribution: uniform, Gaussian-weighted ('intensity'/'amplitude') or user-weighted."""
     if rng.random() < p_dist:
-        a, b = sorted([draw(), draw()])
-        if a == b:
-            b = a + 1.0
-        return {"dist": [a, b, int(rng.integers(1, 5))]}
+        a, b = draw(), draw()
+        scale = abs(a - b) / 2 if a != b else max(abs(a) * 0.3, 1.0 if not nonneg else 0.05)
+        return A.rand_dist(rng, (a + b) / 2, scale, nonneg=nonneg)
     return draw()
 
 
@@ -80,7 +86,7 @@ def gen(rng, tier):
     if rng.random() < 0.05:
         cut = "inf"
     else:
-        cut = _dist_or_scalar(rng, cutoff, 0.25)
+        cut = _dist_or_scalar(rng, cutoff, 0.3, nonneg=True)
 
     def focal():
         k = rng.random()
@@ -105,11 +111,11 @@ def gen(rng, tier):
     mags = [x for x in coeffs if x in A.MAGNITUDES]
     if mags and rng.random() < 0.15:
         sym = str(rng.choice(mags))
-        lo, hi = sorted([coeffs[sym], coeffs[sym] * float(rng.uniform(-1, 0.9))])
-        coeff_dist = [sym, lo, hi if hi > lo else lo + 1.0, int(rng.integers(1, 4))]
+        coeff_dist = [sym, A.rand_dist(rng, coeffs[sym], abs(coeffs[sym]) * float(rng.uniform(0.05, 1.0)))]
     return {"energy": en, "gpts": g, "sampling": s, "precision": "float64" if rng.random() < 0.5 else "float32",
             "soft": bool(rng.random() < 0.55), "cutoff": cut,
-            "focal_spread": _dist_or_scalar(rng, focal, 0.2), "angular_spread": _dist_or_scalar(rng, angular, 0.2),
+            "focal_spread": _dist_or_scalar(rng, focal, 0.3),
+            "angular_spread": _dist_or_scalar(rng, angular, 0.3, nonneg=True),
             "coeffs": coeffs, "coeff_dist": coeff_dist, "flip_phase": bool(rng.random() < 0.1),
             "pipeline": bool(rng.random() < 0.3), "pt_seed": int(rng.integers(0, 2 ** 31))}
 
@@ -125,17 +131,33 @@ def fixed_cases(tier):
                 c = dict(base)
                 c.update(precision=prec, soft=soft, cutoff=cut)
                 out.append(c)
+    # weighted distributions (quadrature weights must never scale an aperture or an envelope)
+    k = 0
+    for prec in ("float64", "float32"):
+        for norm in ("intensity", "amplitude"):
+            for mean in (True, False):
+                k += 1
+                c = dict(base)
+                c.update(precision=prec, soft=bool(k % 2), pt_seed=40 + k,
+                         cutoff={"gauss": [1.5, 3, 9.0, 2.0, norm, mean]},
+                         focal_spread={"gauss": [20.0, 3, 40.0, 3.0, norm, mean]},
+                         angular_spread={"gauss": [0.3, 2, 1.5, 2.0, norm, mean]},
+                         coeff_dist=["C10", {"gauss": [60.0, 3, -300.0, 2.0, norm, mean]}] if k % 2 else None)
+                out.append(c)
+    c = dict(base)
+    c.update(precision="float64", soft=True, cutoff={"values": [4.0, 9.0], "weights": [0.2, 0.7]},
+             focal_spread={"values": [10.0, 80.0, 150.0], "weights": [0.5, 1.0, 0.25]},
+             angular_spread={"values": [0.0, 2.0], "weights": [0.9, 0.1]}, coeff_dist=["C12", {"values": [5.0, 50.0], "weights": [0.6, 0.4]}])
+    out.append(c)
     return out
 
 
 # --------------------------------------------------------------------------- helpers
 def _val(x):
-    """Scalar or abTEM distribution from the JSON form; returns (object, list of member values)."""
-    import abtem
+    """Scalar or abTEM distribution from the JSON form; returns (object, list of member values computed here)."""
     if isinstance(x, dict):
-        lo, hi, n = x["dist"]
-        dist = abtem.distributions.uniform(lo, hi, int(n))
-        return dist, [float(v) for v in np.asarray(dist.values, dtype=float)]
+        dist, values, _ = A.dist_from_json(x)
+        return dist, [float(v) for v in values]
     if x == "inf":
         return np.inf, [np.inf]
     return float(x), [float(x)]
@@ -313,8 +335,8 @@ def check(ctx, case):
         coeffs = dict(case["coeffs"])
         ab_args = dict(coeffs)
         if case["coeff_dist"]:
-            sym, lo, hi, n = case["coeff_dist"]
-            ab_args[sym] = abtem.distributions.uniform(lo, hi, int(n))
+            cd = case["coeff_dist"]
+            ab_args[cd[0]] = A.dist_from_json(cd[1] if len(cd) == 2 else {"dist": cd[1:]})[0]
         as_obj, as_vals = _val(case["angular_spread"])
         se = transfer.SpatialEnvelope(as_obj, aberration_coefficients=ab_args, **grid)
         k = _np(se._evaluate_kernel())
